@@ -1310,13 +1310,20 @@ pub fn splice(p: &Prog, splices: &[(u16, bool, u8)]) -> Prog {
         if q.edges.is_empty() {
             break;
         }
-        let ei = (ei as usize) % q.edges.len();
+        // half of the splices go onto an edge that carries an explicit port ([1]join, [neg]..,
+        // unzip[0], partition outputs ...) when there is one
+        let ported: Vec<usize> = (0..q.edges.len()).filter(|&i| q.edges[i].sport.is_some() || q.edges[i].dport.is_some()).collect();
+        let ei = if (count / 16) % 2 == 0 && !ported.is_empty() {
+            ported[(ei as usize) % ported.len()]
+        } else {
+            (ei as usize) % q.edges.len()
+        };
+        // own-index variant of the spliced node: `src -> [0]u; u[..] -> dst`
+        //   0: no index on the spliced node, 1: explicit input index, 2: explicit output index, 3: both
+        let own = (count / 2) % 4;
         for _ in 0..(1 + count % 2) {
             let e = q.edges[ei].clone();
             let ctx = q.nodes[e.src].ctx;
-            // never put a splice next to a handoff on both sides (would create adjacent handoffs
-            // after elimination only if both neighbours are handoffs, which the generator never
-            // emits), fine.
             let (op, text) = if is_tee { ("tee", "tee()") } else { ("union", "union()") };
             q.nodes.push(PNode {
                 op: op.into(),
@@ -1327,8 +1334,11 @@ pub fn splice(p: &Prog, splices: &[(u16, bool, u8)]) -> Prog {
                 spliced: true,
             });
             let s = q.nodes.len() - 1;
-            q.edges[ei] = PEdge { src: e.src, sport: e.sport.clone(), dst: s, dport: None };
-            q.edges.push(PEdge { src: s, sport: None, dst: e.dst, dport: e.dport.clone() });
+            let idx = ((count / 8) % 2).to_string();
+            let own_in = if own == 1 || own == 3 { Some(idx.clone()) } else { None };
+            let own_out = if own == 2 || own == 3 { Some(idx.clone()) } else { None };
+            q.edges[ei] = PEdge { src: e.src, sport: e.sport.clone(), dst: s, dport: own_in };
+            q.edges.push(PEdge { src: s, sport: own_out, dst: e.dst, dport: e.dport.clone() });
         }
     }
     q
